@@ -50,6 +50,7 @@ inductive Cmd where
   | cont
   | add (r : Rule)
   | del (r : Rule)
+  | clear                   -- `delete_all_breakpoints`
   | recv                    -- `receiver.recv()` of the current run's channel (blocks while it is empty)
   deriving Repr, DecidableEq
 
@@ -174,6 +175,7 @@ def controllerStep (s : State) : Option State :=
     | .cont :: rest => some { s with cpc := .contLoadDone, todo := rest }
     | .add r :: rest => some { s with bps := if s.bps.contains r then s.bps else r :: s.bps, todo := rest }
     | .del r :: rest => some { s with bps := s.bps.filter (· ≠ r), todo := rest }
+    | .clear :: rest => some { s with bps := [], todo := rest }
     | .recv :: rest =>
       match s.cur with
       | some t =>
